@@ -71,10 +71,11 @@ fn gen_script(r: &mut Rng) -> Vec<String> {
             }
             5 | 6 | 7 => ops.push(format!("Cm{}", t)),
             8 => ops.push(format!("Cx{}", t)),
-            9 => ops.push(match r.below(4) {
+            9 => ops.push(match r.below(5) {
                 0 => format!("S{}", t),
                 1 => format!("SF{}", t),
                 2 => "Z".to_string(),
+                3 => format!("M{}", t),
                 _ => format!("A{}", t),
             }),
             10 => ops.push("U".to_string()),
@@ -114,6 +115,17 @@ fn run_body(inj: &mut InjectorPP, ops: &[String]) {
             if let Err(e) = r {
                 std::panic::resume_unwind(e);
             }
+        } else if op.starts_with("M") {
+            // the OS refuses to make the target writable, now and for whatever the unwinding
+            // attempts next (a read-only file mapping, a W^X policy)
+            shim::fail_next_mprotects(1000);
+            let r = std::panic::catch_unwind(std::panic::AssertUnwindSafe(|| {
+                inj.when_called(target_ptr(t)).will_execute_raw(shadow::func!(fn (raw_fake)(i32) -> i32));
+            }));
+            shim::fail_next_mprotects(0);
+            if let Err(e) = r {
+                std::panic::resume_unwind(e);
+            }
         } else if op == "U" {
             panic!("user panic in the test body");
         }
@@ -137,6 +149,9 @@ pub fn run(a: &Args, out: &mut impl Write) {
             let mut line = String::new();
             for ops in &sc {
                 let p0 = PANICS.load(Ordering::SeqCst);
+                // mappings the library holds when the lifetime begins (a trampoline obtained just
+                // before an mprotect refusal in an earlier lifetime stays behind on the pinned tree)
+                let owned0 = shim::owned().len();
                 // body and scope exit observed separately: the injector is moved out of the body
                 let mut inj_slot: Option<InjectorPP> = Some(InjectorPP::new());
                 let body = {
@@ -184,7 +199,7 @@ pub fn run(a: &Args, out: &mut impl Write) {
                     restored as u8,
                     calls_ok as u8,
                     relock as u8,
-                    shim::owned().len()
+                    shim::owned().len() as i64 - owned0 as i64
                 ));
                 w.write_all(line.as_bytes()).unwrap();
                 line.clear();
